@@ -43,7 +43,10 @@ def showP : PRes → String
   | .unsupported i w => s!"unsupported {i} {w}"
 
 def showL : LqlRes → String
-  | .rel u num e => s!"rel {u.toNat} {hex num} ELSE {showL e}"
+  | .rel u num e =>
+    -- NONNEG: the code takes the relative reading only when the number is not negative (and not NaN); the number itself is
+    -- resolved by the harness with the real strconv.ParseFloat (the float contract's instance)
+    s!"rel {u.toNat} {hex num} {if Logrange.Generated.C20.lqlRelativeRejectsNegative then "NONNEG " else ""}ELSE {showL e}"
   | .const k => s!"const {k}"
   | .abs i c => s!"ok {i} {showCivil c}"
   | .unixNano n => s!"nano {n}"
